@@ -77,13 +77,14 @@ def validate(rep, hists, label):
     if cur:
         batches.append(cur)
     import multiprocessing as mp
+from concurrent.futures import ProcessPoolExecutor
     jobs = [("Trace_FimStoreConc", "Trace_FimStoreConc.cfg", [{k: v for k, v in h.items() if k != "steps"} for h in b], 3, None)
             for b in batches]
     if len(jobs) == 1:
         outs = [pipeline._validate_batch(jobs[0])]
     else:
-        with mp.get_context("fork").Pool(min(6, len(jobs))) as pool:
-            outs = pool.map(pipeline._validate_batch, jobs, chunksize=1)
+        with ProcessPoolExecutor(min(6, len(jobs)), mp_context=mp.get_context("fork")) as ex:
+            outs = list(ex.map(pipeline._validate_batch, jobs, chunksize=1))
     acc, lock = set(), {}
     for printed, gen, dist, _w in outs:
         rep.extra["tlc_trace_states"] = rep.extra.get("tlc_trace_states", 0) + gen
@@ -141,8 +142,8 @@ def run(tier, seed):
             else:
                 jobs.append((be, scripts, 2, 6000 if nthr == 2 else 4000, seed + sc, 600))
     import multiprocessing as mp
-    with mp.get_context("fork").Pool(min(12, len(jobs))) as pool:
-        res = pool.map(_explore, jobs, chunksize=1)
+    with ProcessPoolExecutor(min(12, len(jobs)), mp_context=mp.get_context("fork")) as ex:
+        res = list(ex.map(_explore, jobs, chunksize=1))
     hists = [h for r in res for h in r]
     validate(rep, hists, "bounded-preemption + random schedules on the real store classes")
     rep.extra["preemption_bound"] = 1 if quick else 2
